@@ -1,6 +1,7 @@
 import Driver.Util
 import Driver.SM
 import Driver.Beh
+import Driver.Pyg
 open Lean Drv
 
 /-- dispatch on the prefix of "op" -/
@@ -10,6 +11,7 @@ def dispatch (j : Json) : R Json := do
   match pre with
   | "sm" | "dec" => SMD.handle op j
   | "beh" => BehD.handle op j
+  | "pyg" => PygD.handle op j
   | _ => throw s!"unknown op {op}"
 
 partial def loop (h : IO.FS.Stream) (out : IO.FS.Stream) : IO Unit := do
